@@ -163,7 +163,9 @@ type loggerWriter struct {
 }
 
 func (l *loggerWriter) Write(p []byte) (int, error) {
+	// Report all of p as written, including the whitespace we trim.
+	n := len(p)
 	p = bytes.TrimSpace(p)
 	l.logFunc(string(p))
-	return len(p), nil
+	return n, nil
 }
